@@ -690,11 +690,11 @@ Proof.
     - subst idj.
       apply (c06_check_ok _ _ rs src sport m (alookup host L1) mo _ G0 Hst Bd Po).
       + rewrite labelled_snd by exact Mo. exact Bo.
-      + intros t' A. destruct (HL1 _ _ A) as [A1 A2]. split; [exact A1|lia].
+      + intros t' A. destruct (HL1 _ _ A) as [A1 A2]. split; [exact A1|]. clear - A2. lia.
     - destruct Po as (t0 & F0 & Po). rewrite Hlc, FT in F0. injection F0 as <-. rewrite FT in MI. subst idj.
       apply (c06_check_ok _ _ rs src sport m (Some from) mo _ G0 Hst Bd Po).
       + rewrite labelled_snd by exact Mo. exact Bo.
-      + intros t' A. injection A as <-. split; [exact Hfa|lia]. }
+      + intros t' A. injection A as <-. split; [exact Hfa|]. clear - Hfp. lia. }
   destruct (j_choose (pc_cfg pc) lc false q); [reflexivity|exact (MAIN _ IA)|exact (MAIN _ IA)|exact (MAIN _ IA)].
 Qed.
 
@@ -1180,6 +1180,24 @@ Proof.
     unfold learned_after in K. cbn [x_p x_learned] in K. exact K.
 Qed.
 
+(* the readability invariant of the learned table is kept as well *)
+Theorem C06_lrn_ok_step :
+  forall fx c now br st st' outs li lc src sport data,
+  nth_opt (c_listens c) li = Some lc -> safe1 (lc_addr lc) = true -> (1 <= lc_udp lc <= 65535)%Z ->
+  lrn_ok (st_learned st) ->
+  proxy_step fx c now br st (EvUdp li src sport data) = Ok (st', outs) -> lrn_ok (st_learned st').
+Proof.
+  intros fx c now br st st' outs li lc src sport data N Ha Hu HL H.
+  unfold proxy_step in H. rewrite N in H.
+  destruct (parse_message data) as [[m rest]| |]; [|injection H as <- _; exact HL|injection H as <- _; exact HL].
+  unfold run_ctx in H. destruct (nth_p (st_proxies st) li) as [p|]; [|injection H as <- _; exact HL].
+  match type of H with context [process_message ?e ?a ?b ?f ?r ?t ?mm ?xx] =>
+    destruct (process_message e a b f r t mm xx) as [x'| |] eqn:PM; try discriminate H;
+    pose proof (C06_learning e a b f r t mm xx x' PM) as LE;
+    pose proof (lrn_ok_after a f mm xx Ha Hu HL) as K end.
+  injection H as <- _. cbn [st_learned]. rewrite LE. exact K.
+Qed.
+
 (* ====================================================================== Part G: example *)
 (* the run of C13_bridge: a request from 10.0.0.9:5070 whose Route names the receiving listener, then
    10.0.0.9:5070 (the sender itself: learned from this very request, through the UDP listener), then one more;
@@ -1255,7 +1273,9 @@ Example C06_agree_ex :
   | _ => False
   end.
 Proof.
-  destruct B13.b13_run as [[st' outs]| |] eqn:E; [|vm_compute in E; discriminate E|vm_compute in E; discriminate E].
+  unfold B13.b13_run, B13.b13_ev.
+  match goal with |- match ?X with Ok _ => _ | Err => _ | Panic => _ end =>
+    destruct X as [[st' outs]| |] eqn:E end; [|vm_compute in E; discriminate E|vm_compute in E; discriminate E].
   split.
   - refine (C06_agree_step B13.b13_pc (js_init C01.ex_cfg) all_fixed 1000%Z (branch_of 0) C01.ex_st st' outs
               0%nat C01.ex_lc (s2b "10.0.0.9") 5070%Z B13.b13_req ex_jin (parsed B13.b13_req) [] [] []
@@ -1280,5 +1300,6 @@ Print Assumptions j_learn_agree.
 Print Assumptions C06_judge_bridge_udp.
 Print Assumptions C06_judge_bridge_step.
 Print Assumptions C06_agree_step.
+Print Assumptions C06_lrn_ok_step.
 Print Assumptions C06_bridge_example.C06_bridge_ex.
 Print Assumptions C06_bridge_example.C06_agree_ex.
